@@ -146,8 +146,6 @@ def verdict(before, after):
 
 def signature(obj):
     f = obj.get("features", {})
-    if "=" in f.get("params", ""):
-        return "movemethod:parameter-with-default"
     if f.get("uses_helper") and not f.get("same_module"):
         return "movemethod:uses-global-of-source-module"
     return "movemethod:" + ",".join(k for k in sorted(f) if f[k] is True)
